@@ -237,6 +237,9 @@ class Store:
         # the flag of the last branch-level ``_emit`` that covered this
         # store (None: none yet): nodes added below later follow it
         self.branch_emit = None
+        # (at the top of a hierarchy) stores with children whose
+        # sub-schema was extended since the last generate()
+        self.extended_subschemas = []
         self.sources = {}
         self.leaf = False
         self.serializer = None
@@ -592,6 +595,9 @@ class Store:
         self.subschema = deep_merge(
             self.subschema,
             deep_copy_internal(subschema))
+        if self.inner:
+            # the children that exist do not have what it declares yet
+            self.top().extended_subschemas.append(self)
 
     def _apply_config(self, config, source=None):
         """
@@ -2168,5 +2174,15 @@ class Store:
         target._generate_paths(processes, flow, topology)
         target._generate_paths(steps, flow, topology)
         target._apply_subschemas()
+        # a generated process may declare a sub-schema for a store
+        # outside the generated subtree (a glob port wired with '..'):
+        # the children that store already has get the declared variables
+        top = self.top()
+        target_path = target.path_for()
+        for store in top.extended_subschemas:
+            if store.path_for()[:len(target_path)] != target_path:
+                store._apply_subschema()
+                store.apply_defaults()
+        top.extended_subschemas = []
         target.set_value(initial_state)
         target.apply_defaults()
